@@ -86,7 +86,8 @@ def decimal(value: bytes) -> typing.Tuple[int, _decimal.Decimal]:
     try:
         decimals = common.Struct.byte.unpack(value[0:1])[0]
         raw = common.Struct.long.unpack(value[1:5])[0]
-        return 5, _decimal.Decimal(raw) * (_decimal.Decimal(10)**-decimals)
+        sign, digits, _exponent = _decimal.Decimal(raw).as_tuple()
+        return 5, _decimal.Decimal((sign, digits, -decimals))
     except TypeError:
         raise ValueError('Could not unpack decimal value')
 
